@@ -60,6 +60,10 @@ CLAIMS = {
    text="MC_Codec.tla (TLC) establishes the encode/decode laws of the specification's own codec over bounded universes (all signed values of <=1-2 octets, length forms, truncation, OID prefix/order lemmas). The library's INTEGER encoder/decoder is run over every value of 1..2 (thorough 1..3) content octets, neighbourhoods of every +-2^(8k-1)/+-2^(8k) and random i64; OID text->octets->TLV->text over the grammar corpus; whole v1/v2c/v3 request messages are encoded and decoded back by the library; arbitrary i64 also reach the wire through the public API (max_repetitions). TraceCodec.tla / TraceSession.tla judge every record: encoding = the minimal X.690 form computed by the specification, decode(encode(x)) = x, nothing left over.",
    note="Batched validation (4000 records per event). Messages that do not fit the buffer are outside C15 (see C17).",
    ref="DESIGN.md 5 C15", technique="TLC-checked codec laws + batched TLC trace validation of the library's encoders/decoders"),
+ "C16": dict(
+   text="MC_Codec.tla (TLC) establishes the extent laws of the specification's header parser. On the real decoders (Rust replay binary) the metamorphic relation from_ber(x || s) = (s, value(x)) is checked for every encoding x of the TLC-generated value corpus (every type, boundary forms) x 7 suffixes through SnmpValue::from_ber and the typed decoders; nested tampering and trailing octets on whole messages come from Malform.tla (10 000 mutants: length rewrites, long forms incl. 8-9 length octets, truncation at every offset, inserted/trailing octets at every TLV node of 13 templates) through the v1/v2c/v3 message decoders. TraceCodec.tla judges every record with the TLA+ header parser: remaining input is exactly the appended octets, the value is unchanged, and a message whose inner declared length runs past its enclosing element or that carries octets after the top-level message is rejected.",
+   note="Octets after the last field but inside an enclosing SEQUENCE (after msgData, after the PDU, inside a varbind) are tolerated-or-refused (the statement is silent); the body of a Report PDU is not interpreted by the client and only totality is required there.",
+   ref="DESIGN.md 5 C16", technique="TLC-checked extent laws + TLC-generated (x, suffix) and malformed-message corpora + batched TLC trace validation of the real decoders"),
  "C17": dict(
    text="Buffer.tla is model-checked by TLC (InBounds, NoUnwrittenExposed, FailChangesNothing, BookmarkLemma) over all operation sequences on a small buffer. At the real capacity (measured from the library) the transitions of the model's graph over the boundary argument set x {push, push_tag_len, skip(+fill), reset, MAC placeholder} are replayed on a REAL Buffer (shortest path + transition) and TraceBuffer.tla judges result, len()/free() and the exact run-length-encoded contents of data() after every step. Through the public API request sizes are swept across the 127/128, 255/256 and capacity boundaries at each nesting level on v1/v2c/v3 (plain/auth/DES/AES): TraceSession.tla requires that a refused request put nothing on the wire and really does not fit (size arithmetic of SNMP.tla), that every sent request decodes to exactly the call, and that the session still emits correct requests afterwards.",
    note="An out-of-bounds access without functional symptom (result, lengths, contents unchanged) is not observable by this technique (DESIGN.md 6). Quick tier replays ~1800 sampled transitions; thorough all ~450k.",
